@@ -230,6 +230,8 @@ def resolve_operand(u, enforce, typed, m, operand, keep_payload=False):
 
 
 def run_case(ctx, case):
+    if "stale" in case:
+        return run_stale(ctx, case)
     u = universes(case["nkeys"])[case["universe"]]
     enforce, typed = case["enforce"], case["typed"]
     KS = env()["KeyedSet"]
@@ -602,9 +604,115 @@ BOUNDS = {
 }
 
 
+# ---------------------------------------------------------------------------
+# an item's key changes behind the container's back (its key attribute is assigned after it was added): every operation still
+# TERMINATES, and what it leaves behind is a set whose views agree
+
+STALE_OPS = ["clear", "pop", "discard_item", "discard_oldkey", "remove_item", "contains", "iter", "isub_item", "iand_other", "ior_item", "add_again", "len"]
+
+
+class _Hang(BaseException):
+    pass
+
+
+def run_stale(ctx, case):
+    import signal
+
+    from spec_classes import spec_class
+
+    KS = env()["KeyedSet"]
+    if "Mut" not in _ENV:
+        _ENV["Mut"] = spec_class(key="k", bootstrap=True)(type("Mut", (), {"__annotations__": {"k": str, "v": int}, "v": 0, "__module__": "vf.generated"}))
+    Mut = _ENV["Mut"]
+    n, which, enforce, seq = case["stale"]["n"], case["stale"]["which"], case["stale"]["enforce"], case["ops"]
+    items = [Mut(KEYS[i] or "e", v=i) for i in range(n)]
+    s = KS(items, enforce_item_equivalence=enforce)
+    victim = items[which % n]
+    old = victim.k
+    victim.k = "zz-stale"
+
+    def on_alarm(*_a):
+        raise _Hang()
+
+    prev = signal.signal(signal.SIGALRM, on_alarm)
+    try:
+        for i, op in enumerate(seq):
+            signal.alarm(20)
+            try:
+                if op == "clear":
+                    s.clear()
+                    if len(s) or list(s):
+                        ctx.fail("stale|clear:not_empty", case, f"clear() left {list(s)!r}")
+                        return
+                elif op == "pop":
+                    before = len(s)
+                    try:
+                        x = s.pop()
+                    except KeyError:
+                        if before:
+                            ctx.fail("stale|pop:raises_on_nonempty", case, f"pop() raised KeyError on a set of {before} items")
+                            return
+                    else:
+                        if len(s) != before - 1:  # (the object itself may legitimately be held twice: re-added under its new key)
+                            ctx.fail("stale|pop:not_removed", case, f"pop() returned {x!r} but the set still holds {list(s)!r}")
+                            return
+                elif op == "discard_item":
+                    s.discard(victim)
+                elif op == "discard_oldkey":
+                    s.discard(old)
+                elif op == "remove_item":
+                    try:
+                        s.remove(victim)
+                    except KeyError:
+                        pass
+                elif op == "contains":
+                    (victim in s), (old in s), ("zz-stale" in s)
+                elif op == "iter":
+                    list(s), list(s.keys()), list(s.items())
+                elif op == "isub_item":
+                    s -= [victim]
+                elif op == "iand_other":
+                    s &= KS([it for it in items if it is not victim])
+                elif op == "ior_item":
+                    try:
+                        s |= [victim]
+                    except ValueError:
+                        pass
+                elif op == "add_again":
+                    try:
+                        s.add(victim)
+                    except ValueError:
+                        pass
+                elif op == "len":
+                    len(s)
+            except _Hang:
+                ctx.fail(f"stale|{op}:does_not_terminate", case, f"step {i} {op} on a KeyedSet holding an item whose key went stale did not return within 20 s")
+                return
+            except CLEAN as e:
+                ctx.fail(f"stale|{op}:raises:{type(e).__name__}", case, f"step {i} {op} raised {e!r}")
+                return
+            finally:
+                signal.alarm(0)
+            if not (len(s) == len(list(s)) == len(list(s.keys())) == len(list(s.items()))):
+                ctx.fail(f"stale|{op}:views_disagree", case, f"after {op}: len {len(s)}, items {list(s)!r}, keys {list(s.keys())!r}")
+                return
+    finally:
+        signal.signal(signal.SIGALRM, prev)
+    ctx.case(case, len(seq) >= 1)
+
+
+def stale_cases(maxlen):
+    for n in (1, 2, 3):
+        for which in range(n):
+            for enforce in (False, True):
+                for k in range(1, maxlen + 1):
+                    for seq in itertools.product(STALE_OPS, repeat=k):
+                        yield {"stale": {"n": n, "which": which, "enforce": enforce}, "ops": list(seq)}
+
+
 def units(tier, seed):
     b = BOUNDS[tier]
-    out = []
+    out = [["stale", i, 4] for i in range(4)]
     for uname in universes(b["nkeys"]):
         for enforce in (False, True):
             for typed in (False, True):
@@ -645,6 +753,14 @@ MUTATING = {"add", "discard", "remove", "pop", "clear"} | set(BINARY_INPLACE)
 def run_unit(ctx, unit):
     b = BOUNDS[ctx.tier]
     kind = unit[0]
+    if kind == "stale":
+        for j, case in enumerate(stale_cases(3 if ctx.tier == "thorough" else 2)):
+            if j % unit[2] == unit[1]:
+                run_stale(ctx, case)
+                if ctx.failures:
+                    return
+        ctx.count("stale_shards_completed")
+        return
     if kind in ("enum1", "enum2"):
         u = universes(b["nkeys"])[unit[1]]
         base = {"universe": unit[1], "nkeys": b["nkeys"], "enforce": unit[2], "typed": unit[3]}
